@@ -32,7 +32,7 @@ T = {
          "For contigs up to a few hundred bases all (start,end) pairs, for longer ones all pairs around every segment junction / 0 / len, are queried on the real reader and compared with the slice of get_contig.",
          "archives come from the C01 space; same bounds"),
  "C08": ("model_checking", "§4 C08", "explicit-state BFS over reader operation histories to a fixpoint of the exact hidden state (cursor, loaded flags, caches), result compared with a fresh handle on every edge",
-         "BFS over the real Decompressor with ~20 operations x argument menu; states are deduplicated by the complete hidden state read through hooks, so the fixpoint covers histories of any length; every edge's result must equal the same query on a fresh handle; clone_for_thread handles are checked for every pair of reachable states x ops.",
+         "BFS over the real Decompressor with ~30 operations x argument menu on archives with 1-3 metadata batches, two delta packs per group and a length-ratio-4 group; states are deduplicated by the complete hidden state read through hooks, so the fixpoint covers histories of any length; every edge's result must equal the same query on a fresh handle; clone_for_thread handles are checked for every pair of reachable states x ops, and 3 clones run queries as concurrent tasks under the schedule explorer with a scheduling point between seek and read of every part.",
          "hidden-state key completeness (hooks H7/H8); archives limited to the listed shapes"),
  "C09": ("exploration", "§4 C09", "bounded-exhaustive enumeration of (reference,target,min-match) over small alphabets + all single/double edits of seeded references",
          "decode(encode(t)) = t, empty iff equal, no 0xFF, no panic on every pair inside the bounds; encoder features (match, to-end, bang, N-run, negative offset) are measured and a missing feature fails the run as vacuous.",
@@ -41,35 +41,35 @@ T = {
          "All contigs up to length 7-9 over {A,C,G,T,N,+IUPAC} for k=1..4 with every subset of their canonical k-mers, periodic contigs for k=5..32; tiling, overlap k, >=k bases, boundary k-mers in the set and recorded on both sides, single-segment rule.",
          "contigs beyond the length bound not enumerated"),
  "C11": ("exploration", "§4 C11", "bounded-exhaustive enumeration of references (closed under permutation / reverse complement) against an independent recount; variant and rayon-pool agreement",
-         "Every reference of <=3 contigs up to total length 6-8 over {A,C,G,T,N}: singleton/duplicate sets equal an independent recount (which is checked invariant under permutation and reverse complement), splitters are singletons, spacing law via the real segmenter; in-memory/streaming/first-sample variants and rayon pools 1,2,4,16 agree.",
+         "Every reference of <=3 contigs up to total length 6 (thorough 7) over {A,C,G,T,N}: singleton/duplicate sets equal an independent recount (which is checked invariant under permutation and reverse complement), splitters are singletons, spacing law via the real segmenter; in-memory/streaming/first-sample variants and rayon pools 1,2,4,16 agree.",
          "rayon's internal schedule is not enumerated (ordered collect consumed as a set)"),
  "C12": ("exploration", "§4 C12", "bounded-exhaustive enumeration of byte strings per symbol range + call-history enumeration for the thread-local ZSTD context",
          "Tuple packing identity/injectivity on all strings up to length 8-12 per alphabet incl. boundary alphabets; reference compression on both sides of the repetitiveness threshold (both markers counted); delta packs at six levels; every call sequence of depth 3 compared with first-call-on-fresh-thread.",
          "libzstd trusted; long inputs only seeded"),
  "C13": ("exploration", "§4 C13", "operation-sequence enumeration on the real Archive against a Vec model, all read permutations after reopen",
-         "Every sequence up to depth 4 (thorough 6 on a reduced alphabet) of register/add_part/add_part_buffered/flush/set_raw_size, then close, reopen and every permutation of random-access + sequential reads; varint sweep over all byte-length boundaries.",
+         "Every sequence up to depth 4 (thorough 5) of register/add_part/add_part_buffered/flush/set_raw_size, then close, reopen and every permutation of random-access + sequential reads; varint sweep over all byte-length boundaries.",
          "real files in /dev/shm; offsets >2^32 not reachable"),
  "C14": ("fault_enumeration", "§4 C14", "crash-point enumeration: every prefix length of finished archives opened by the real reader in child processes (both overflow-check profiles)",
-         "Every byte length n<len of several archives is opened with Archive::open / Decompressor::open (and the CLI on a subset) in resource-limited child processes; anything but a clean error is a violation.",
-         "premise 'file is written front to back' validated by the write log hook"),
- "C15": ("fault_enumeration", "§4 C15", "first-failing-write enumeration (RLIMIT_FSIZE / /dev/full) over every offset of the write log of create",
-         "The first failing write is injected at every offset (quick: boundaries of every write call); finalize must return Err / CLI exit non-zero, success implies a readable archive.",
+         "Every byte length n<len of several archives (incl. one re-written through the real container writer with an extra raw stream of length-field boundary values, and one whose length field at len-1 passes a plain range check) is opened with Archive::open / Decompressor::open (and the CLI on a subset) in resource-limited child processes; anything but a clean error is a violation.",
+         "premise 'the output file is written strictly front to back' validated by the driver with strace on the real `ragc create` (only sequential write(2) on the output fd); garbage-sized allocations below RLIMIT_AS 1 GiB are not observable"),
+ "C15": ("fault_enumeration", "§4 C15", "first-failing-write enumeration (RLIMIT_FSIZE sticky and one-shot, /dev/full) over every byte offset of the archive, in child processes running the real create path",
+         "The first failing write is injected at every byte offset with the write buffer capped at 16 bytes (each add_part / footer / length write fails at its own call site), as a sticky fault and as a transient one (exactly one write fails); plus the production 4 MiB buffer, ENOSPC via /dev/full and the real CLI; create must return Err / exit non-zero, success implies a complete readable archive.",
          "EFBIG/ENOSPC only; fine-grained writes via the buffer-capacity hook"),
  "C16": ("exploration", "§4 C16", "grammar enumeration of FASTA texts through the real CLI",
-         "Files of <=3 records from a menu of header/sequence/blank-line/line-end shapes as reference and non-reference sample; create fails or every listed sample extracts and equals the harness normaliser and no record with a base is missing.",
+         "Files of <=3 records from a menu of header/sequence/blank-line/line-end shapes, alphabet-boundary records, N runs next to every letter class, long near-identical headers, as reference / non-reference sample / PanSN file, plus a sequence-content sweep (contig ends x SNP distance, gaps of different length) through create/getset; create fails or every listed sample extracts and equals the harness normaliser and no record with a base is missing.",
          "menu-bounded"),
  "C17": ("exploration", "§4 C17", "argument-list enumeration through the real CLI",
-         "All sample lists of length <=3 with repeats, every prefix, stdout and -o; failure menu; create flag subsets.",
+         "On 4 archives (sorted / unsorted / nested-prefix / shared-prefix-in-non-lexicographic-order sample names): all sample lists of length <=3 with repeats, every prefix, stdout and -o (fresh and pre-existing file); failure menu incl. failing sinks; every create flag subset; create under an output size limit.",
          "menu-bounded"),
  "C18": ("exploration", "§4 C18", "the bounded spaces of C01/C04/C07/C09/C14 executed under both overflow-check profiles, tables compared",
          "Same enumerations run by the same harness built with overflow-checks on and off; results must be identical and no arithmetic-overflow panic may occur.",
          "same bounds as the source checks"),
  "C19": ("exploration", "§4 C19", "enumeration of presentations (gzip member split at every byte, every line width, CRLF, case, PanSN vs per-sample)",
-         "Reader level complete product; CLI level one-factor-at-a-time + pairwise.",
-         "3 small sample sets"),
- "C20": ("model_checking", "§4 C20", "explicit-state BFS over the real Kmer transition function to fixpoint (k<=8/10) + periodic-window enumeration for k up to 32",
+         "Reader level (MultiFileIterator / GenomeIO record and sample-attribution stream) complete product; CLI level (archive sha256, listset/getset) one-factor-at-a-time + pairwise; file-name rule.",
+         "4 small sample sets (one with sample#haplotype names that are prefixes of their neighbours); only the first set at production zstd levels in the quick tier"),
+ "C20": ("model_checking", "§4 C20", "explicit-state BFS over the real Kmer transition function to fixpoint (k<=8, thorough k<=11) + periodic-window enumeration for k up to 32",
          "All reachable (dir, rc, size) states of the real Kmer object for k<=8 (87k states for k=8) with the from-scratch packing invariant on every state; history independence checked; periodic windows with end substitutions for k=9..32; enumerate_kmers restart rule with symbol 4 at every position.",
-         "for k>10 not all 4^k windows"),
+         "for k>8 (thorough: >11) not all 4^k windows"),
 }
 
 checks = []
